@@ -677,9 +677,24 @@ def listedObjects (s : St) : List (Nat × Nat) :=
     | some cell => if cell.live && cell.kind == .obj && !cell.destructed then some (c, min nVars (objVars s cell)) else none
     | none => none)).reverse
 
-def reclaimProg (s : St) : List Mi :=
+/-- check_svalue on an array variable of the interpreter object whose elements are the given locations -/
+def reclaimArr (f : Nat) (s : St) (locs : List Loc) (a : RAcc) : RAcc :=
+  let a := { a with nested := a.nested + 1 }
+  if a.nested > maxRecursion then a
+  else
+    let a' := locs.foldl (fun a l => reclaimGo f s l a) a
+    { a' with nested := a'.nested - 1 }
+
+/-- `withMain`: lpc mode - the interpreter object /c06/main is the oldest object of the case; its variables `v` (the
+    slots) and `obs` (the handles) are walked last -/
+def reclaimProg (s : St) (withMain : Bool) : List Mi :=
+  let fuel := s.size + s.heap.length + s.roots.length + 2
   let a := (listedObjects s).foldl (fun a (c, n) =>
-    (List.range n).foldl (fun a i => reclaimGo (s.size + s.heap.length + 2) s (.item c i) a) a) ({} : RAcc)
+    (List.range n).foldl (fun a i => reclaimGo fuel s (.item c i) a) a) ({} : RAcc)
+  let a := if withMain then
+      reclaimArr fuel s ((List.range nObjs).map (fun o => Loc.root (rHandle o)))
+        (reclaimArr fuel s ((List.range nSlots).map Loc.root) a)
+    else a
   let dels := a.dels.foldl (fun acc x => insDel x acc) []
   a.zeros.reverse.flatMap (fun l => [Mi.take l, Mi.free]) ++
     dels.flatMap (fun (c, j) => [Mi.take (.item c (2 * j)), .free, .take (.item c (2 * j + 1)), .free, .shrink c j])
@@ -971,15 +986,12 @@ def compile (s : St) (op : Op) : Option (List Mi) :=
     let sl := anonSlots s
     if sl.length < n || !s.dlist.isEmpty then none
     else some ((sl.take n).flatMap (fun (p, i) => [Mi.take (.item p i), Mi.free]))
-  | .reclaimu => some (reclaimProg s)
+  | .reclaimu => some (reclaimProg s false)
   | .reclaim =>
-    -- lpc mode: the only references to destructed objects reachable from object variables are the handles (variable
-    -- `obs` of the interpreter object) and a structure the operation builds around them (array, mapping key / value,
-    -- bound argument of a function pointer) and drops afterwards: net effect = the handles of destructed objects go
-    some ((List.range nObjs).flatMap (fun o =>
-      match slotCell s (rHandle o) with
-      | some (_, cell) => if cell.kind == .obj && cell.destructed then [Mi.take (.root (rHandle o)), Mi.free] else []
-      | none => []))
+    -- lpc mode: the same walk; the interpreter object's variables `v` (slots) and `obs` (handles) are object variables
+    -- too: the handles of destructed objects go - unless the recursion counter has been used up by a deep or cyclic
+    -- value met earlier (the missing decrement of check_svalue)
+    some (reclaimProg s true)
   | .newobjr o L =>
     if o < nObjs && L < nLayouts && isNumRoot s (rHandle o) && isNumRoot s (rExist o) then
       -- the three programs of the layout become visible (tracked) cells the first time the layout is used: ra, rb
